@@ -2185,8 +2185,7 @@ mod utils {
   ) -> CommentReference {
     match parser.comments_store.get_mut(associated_comments) {
       CommentsNode::NoComment => {
-        parser.comments_store.create_comment_reference(additional_preceding_comments);
-        associated_comments
+        parser.comments_store.create_comment_reference(additional_preceding_comments)
       }
       CommentsNode::Comments(existing_comments) => {
         additional_preceding_comments.append(existing_comments);
